@@ -151,7 +151,7 @@ func scCookie(r *Run) {
 		if !r.Op("hello") {
 			continue
 		}
-		from := Addr(byte(50+r.Intn("hello", 150)), 1000+r.Intn("hello", 60000))
+		from := drawAddr(r, "hello")
 		n.Inject(from, srvAddr, hello(atkKeys[r.Intn("hello", 3)]), 0, "hello-flood")
 		r.CountFault("client-hello-flood", 1)
 		if r.Intn("hello", 10) == 0 {
@@ -167,7 +167,7 @@ func scCookie(r *Run) {
 			continue
 		}
 		kp := atkKeys[r.Intn("ack", 3)]
-		from := Addr(byte(50+r.Intn("ack", 150)), 1000+r.Intn("ack", 60000))
+		from := drawAddr(r, "ack")
 		lastSH = nil
 		n.Inject(from, srvAddr, hello(kp), 0, "hello")
 		time.Sleep(10 * time.Millisecond)
@@ -185,7 +185,7 @@ func scCookie(r *Run) {
 		switch variant {
 		case 0: // control: must be acceptable
 		case 1:
-			ackFrom = &net.UDPAddr{IP: Addr(byte(201+r.Intn("ack", 50)), 1).IP, Port: from.Port}
+			ackFrom = otherHost(r, "ack", from)
 			what = "other IP"
 		case 2:
 			ackFrom = &net.UDPAddr{IP: from.IP, Port: from.Port + 1 + r.Intn("ack", 100)}
@@ -225,6 +225,25 @@ func scCookie(r *Run) {
 	}
 	r.Sample = append(r.Sample, fmt.Sprintf("hellos=%d acks=%d answered=%d", nHello, nAck, len(o.saFor)))
 	srv.Close()
+}
+
+// drawAddr returns an attacker source address: IPv4 or IPv6.
+func drawAddr(r *Run, key string) *net.UDPAddr {
+	port := 1000 + r.Intn(key, 60000)
+	if r.Intn(key, 3) == 0 {
+		ip := net.ParseIP(fmt.Sprintf("2001:db8::%x", 1+r.Intn(key, 0xfffe)))
+		return &net.UDPAddr{IP: ip, Port: port}
+	}
+	return Addr(byte(50+r.Intn(key, 150)), port)
+}
+
+// otherHost returns another host address of the same family, same port.
+func otherHost(r *Run, key string, a *net.UDPAddr) *net.UDPAddr {
+	if a.IP.To4() == nil {
+		ip := net.ParseIP(fmt.Sprintf("2001:db8:1::%x", 1+r.Intn(key, 0xfffe)))
+		return &net.UDPAddr{IP: ip, Port: a.Port}
+	}
+	return &net.UDPAddr{IP: Addr(byte(201+r.Intn(key, 50)), 1).IP, Port: a.Port}
 }
 
 func indexOfKey(l []*keys.KEMKeyPair, k *keys.KEMKeyPair) int {
